@@ -106,7 +106,7 @@ type c19val struct {
 }
 
 var c19strings = []string{"", "a", "hello world", `quote"inside`, `back\slash`, "tab\tnl\ncr\r", "\x00\x01\x1f\x7f", "é ü ñ", "日本語", "  ", "<script>&amp;</script>", "😀", `{"code":0}`, `"`, `\"`, "/*c*/ //d", "null", "\ufeffbom", strings.Repeat("x", 300),
-	"cpu 100% busy", "%s%d%v%!", "%", "%%", "50%-off", strings.Repeat("chunked-", 700), strings.Repeat("é", 3000)}
+	"cpu 100% busy", "%s%d%v%!", "%", "%%", "50%-off", `lit\u0026eral`, `\u003c\u003e`, `a\\u0026b`, `x\u00e9`, "&<>\u2028\u2029", `\n is two characters`, strings.Repeat("chunked-", 700), strings.Repeat("é", 3000)}
 
 func c19str(r *h.Rand) string {
 	if r.Chance(70) {
